@@ -149,6 +149,30 @@ func Assert(c bool, msg string) {
 	}
 }
 
+// And / Or / Implies / Iff build a formula without forking the path (plain
+// Go && and || are control flow and split the path under gosym).
+func And(cs ...bool) bool {
+	for _, c := range cs {
+		if !c {
+			return false
+		}
+	}
+	return true
+}
+
+func Or(cs ...bool) bool {
+	for _, c := range cs {
+		if c {
+			return true
+		}
+	}
+	return false
+}
+
+func Implies(a, b bool) bool { return !a || b }
+
+func Iff(a, b bool) bool { return a == b }
+
 // Fail is Assert(false, msg).
 func Fail(msg string) { panic(AssertFailed{msg}) }
 
